@@ -190,6 +190,9 @@ def cases(draw):
             draw, cfg, mk, names, d0, (d1 - d0).days, draw(st.integers(0, 10 ** 6))):
         # the session is given signals that also watch a symbol whose file starts a few days in
         lab = lab + ['signals_watching_a_symbol_without_quotes_at_first']
+    if cfg.get('burn_in') is not None and draw(st.sampled_from([False, False, True])):
+        cfg['burn_in_tz'] = draw(st.sampled_from(['Europe/London', 'America/New_York', 'Asia/Tokyo']))      # same instant
+        lab = lab + ['burn_in_written_in_another_time_zone']
     if draw(st.sampled_from([False, False, False, True])):
         cfg['extra_clock_events'] = True
         lab = lab + ['clock_with_pre_and_post_market_events']
